@@ -124,6 +124,7 @@ type c15Trace struct {
 	epochBase   map[uint64]sdk.Coins
 	epochMax    map[uint64]sdk.Coins
 	epochExempt map[uint64]bool
+	retargeted  map[uint64]bool // streams whose records were replaced (outside the paging clause's quantifier)
 }
 
 // cause names why a stream could hand out more than it holds, from facts observed earlier in the trace
@@ -383,7 +384,7 @@ func c15EpochName(e int) string {
 
 func c15Start(r *Run, maxIter uint64) *c15Trace {
 	t := &c15Trace{r: r, w: c15NewWorld(r.T, maxIter), sh: c15NewWorld(r.T, 1<<62), shadowOK: true,
-		epochBase: map[uint64]sdk.Coins{}, epochMax: map[uint64]sdk.Coins{}, epochExempt: map[uint64]bool{}}
+		epochBase: map[uint64]sdk.Coins{}, epochMax: map[uint64]sdk.Coins{}, epochExempt: map[uint64]bool{}, retargeted: map[uint64]bool{}}
 	line := fmt.Sprintf("reset %d %d %d %d", c15Time(t.w.f), maxIter, c15ND, c15NA)
 	t.lines = append(t.lines, line)
 	r.Emit(line, "ok | "+t.w.obs())
@@ -557,6 +558,8 @@ func (t *c15Trace) monitors(fl []string, class string, pre c15Snap, preLocks []l
 			}
 			if op == "replace" && class == "ok" && fl[1] == strconv.FormatUint(s.Id, 10) {
 				t.epochExempt[s.Id] = true
+				t.retargeted[s.Id] = true
+				r.Hit("records-replaced")
 			}
 			if !t.epochExempt[s.Id] && s.DistributedCoins.IsAllGTE(base) {
 				if inc := s.DistributedCoins.Sub(base...); !inc.IsAllLTE(t.epochMax[s.Id]) {
@@ -787,8 +790,8 @@ func (t *c15Trace) monitors(fl []string, class string, pre c15Snap, preLocks []l
 				continue
 			}
 			for _, s := range sk.GetStreams(f.Ctx) {
-				if s.DistrEpochIdentifier != id {
-					continue
+				if s.DistrEpochIdentifier != id || t.retargeted[s.Id] {
+					continue // a stream re-targeted by governance within an epoch is outside the clause
 				}
 				s2, err := t.sh.f.App.StreamerKeeper.GetStreamByID(t.sh.f.Ctx, s.Id)
 				if err != nil || s2.DistributedCoins.Equal(s.DistributedCoins) {
